@@ -308,18 +308,61 @@ def isOppExpr (cpp : Bool) (c1 : Ctx) (e1 : Expr) (c2 : Ctx) (e2 : Expr) : Bool 
 /-- Known-value annotation of an operator node: absent, or the node is a constant expression with that value -/
 def knownOK (S : Sem) (e : Expr) : Bool :=
   match e.ann.known with
-  | none => true
+  | none => e.ann.first == none
   | some k =>
     e.closed && (match eval S (fun _ => 0) e with | some v => k == toI64 v | none => false) &&
     e.ann.first == some k && e.ann.front == some k
 
+/-- the annotations of every token agree with the C semantics `S`:
+    number token: value type = its C type, Known value = its value (as `MathLib::bigint`), `toBigNumber` likewise;
+    variable: value type = its C type, no Known value; operator: Known value only on constant expressions and then the
+    right one; value type `bool` only on `!`, comparisons, `&&`, `||` -/
 def annOK (S : Sem) : Expr → Bool
   | .lit a sp =>
     decide (inRange (S.lty sp) (S.lval sp)) && a.vt == some (toVT (S.lty sp)) &&
     a.known == some (toI64 (S.lval sp)) && a.first == a.known && a.front == a.known && a.num == a.known
-  | .var a x => a.vt == some (toVT (S.vty x)) && a.known == none
+  | .var a x => a.vt == some (toVT (S.vty x)) && a.known == none && a.first == none
   | .un a op e => annOK S e && knownOK S (.un a op e) && (!astIsBool (.un a op e) || op == .lnot)
   | .bin a op l r =>
     annOK S l && annOK S r && knownOK S (.bin a op l r) && (!astIsBool (.bin a op l r) || op.isCmp || op.isLogic)
+
+/-- excludes the inputs on which the `==|!=` rule of `isSameExpression` (astutils.cpp:1696-1705) is unsound (finding
+    F03a): an `==`/`!=` whose one operand has a Known value other than 0 and 1 while the other operand is "bool like" -/
+def eqNeSafe : Expr → Bool
+  | .lit _ _ => true
+  | .var _ _ => true
+  | .un _ _ e => eqNeSafe e
+  | .bin _ op l r =>
+    eqNeSafe l && eqNeSafe r &&
+    (!(op == .eq || op == .ne) ||
+      (match l.ann.known with
+       | some k => k == 0 || k == 1 || !boolLike .cop r
+       | none =>
+         match r.ann.known with
+         | some k => k == 0 || k == 1 || !boolLike .cop l
+         | none => true))
+
+def subRange (a b : Ty) : Bool := decide (tmin b ≤ tmin a) && decide (tmax a ≤ tmax b)
+
+/-- the operand keeps its value when converted to `T`: a constant expression by its value (which must also be a
+    `long long`), any other expression by the range of its type -/
+def fits (S : Sem) (T : Ty) (e : Expr) : Bool :=
+  if e.closed then
+    (match eval S (fun _ => 0) e with
+     | some v => decide (inRange T v) && decide (toI64 v = v)
+     | none => true)
+  else subRange (tyOf S e) T
+
+/-- excludes the inputs on which the Known-value rules of `isOppositeCond` (astutils.cpp:1894-1899, 1970-2010) are
+    unsound (finding F03b): every comparison with a Known operand is *exact*, i.e. the usual arithmetic conversions
+    change neither operand (no negative value converted to unsigned) -/
+def cmpSafe (S : Sem) : Expr → Bool
+  | .lit _ _ => true
+  | .var _ _ => true
+  | .un _ _ e => cmpSafe S e
+  | .bin _ op l r =>
+    cmpSafe S l && cmpSafe S r &&
+    (!(op.isCmp && (l.ann.known.isSome || r.ann.known.isSome)) ||
+      (fits S (uac (tyOf S l) (tyOf S r)) l && fits S (uac (tyOf S l) (tyOf S r)) r))
 
 end Cppcheck.CondExpr
